@@ -32,12 +32,14 @@ TYPO = ['"quoted"', "'single'", "it's", "don't", "James'", "wait...", "...so", "
         "\"nested", "'inner'", "quotes\"", "Jill's", "\\\"esc\\\"", "5'10\"", "don't...can't", "it's...isn't", "'x'...'y'",
         "word…", "…word", "“…and", "a … b", "wait... (so", "and... [x]", "hmm... \"q\"",
         # a closing quote BEFORE the sentence punctuation (the sentence-end rule must know the converted character too)
-        '"promising".', "'fine'!", '"why"?', "(\"ok\")."]
+        '"promising".', "'fine'!", '"why"?', "(\"ok\").",
+        # not an HTML tag (white space after '<' is missing, but the quoted '>' ends it early): prose with quotes
+        '<see the "docs > api" page>']
 CODE_CORE = ["`x`", "`a b`", "`foo(bar, baz)`", "`--flag value`", "`*not em*`", "`<tag attr>`", "`it's \"q\"...`",
              "`a|b`", "`{% t %}`", "`[l](u)`", "`` a`b ``", "`` `x` ``", "``` a``b ```", "`` `a - b ``", "`` 1. `x` # y ``",
              "`a  b`", "`- x`",
              # CJK next to ASCII letters/digits inside a span: the CJK/Latin spacing is for prose only
-             "`pip安装flowmark`", "`v2中文`"]
+             "`pip安装flowmark`", "`v2中文`", "`~/.config/tool`", "`a~b`"]
 CODE_HOSTILE = ["`end. Next`", "` x `"]
 LINK_CORE = ["[link](http://ex.com/a)", "[two words](http://ex.com/a_b?q=1&r=2)", "[a b c](http://u.v/w \"T t\")",
              "![alt text](img.png)", "![a](i.png \"ti tle\")", "<https://example.org/path>", "[*em* link](http://x.y/z)",
@@ -46,6 +48,7 @@ LINK_CORE = ["[link](http://ex.com/a)", "[two words](http://ex.com/a_b?q=1&r=2)"
              "[same dest](http://ref.example/x)", "[same dest](http://ref.example/x \"Different\")", "[same dest](/rel/path_a \"Title here\")",
              # autolinks whose resolved target differs from what is written (scheme added by the reader)
              "www.example.com/chef's-menu", "<a.b@c.example>", "www.bare.example.org",
+             "<https://example.org/notes.txt~>", "https://github.com/org/repo/compare/v1.0...v2.0", "<https://x.y/a...b>",
              "[sp](<http://x.y/a b>)", "![i](<my img.png> \"t\")", "[p](<http://x.y/(a>)",
              "[文档](https://example.com/wiki/中文doc)", "https://example.com/文档v2", "![图alt](img中文2.png)"]
 LINK_HOSTILE = ["[sp](<http://x.y/a b>)", "[t](http://x.y 'single')", "[p](http://x.y (paren))", "[dots. End](http://x.y)",
@@ -57,6 +60,7 @@ TAG_INL = ["{% tag %}", "{% tag a=1 b=\"two words\" %}", "{{ var }}", "{{ a.b | 
            "<!-- c \"q\" -->", "{% f %}{% /f %}", "{% if x %}", "{% endif %}", "{% t x=\"a...b\" %}", "{{ a...b }}",
            "<!-- wait... \"q\" it's -->", "{# it's... so #}",
            "{% tag \"中文abc\" %}", "<!-- 汉字note2 -->", "{{ 变量name }}",
+           "{% field placeholder=\"" + "Type a really long answer here please " * 14 + "and then stop...\" it's=\"x\" %}",
            # a tag body may contain the first character of its own closing delimiter
            "{% if n % 10 == 0 and s == \"Loading...please wait\" %}", "{# issue #12: later...maybe it's #}", "{{ {\"a\": \"wait...what\"}|tojson }}"]
 ESCAPES = ["\\*", "\\_", "\\#", "\\[x\\]", "\\>", "a\\|b", "&amp;", "&lt;", "&#35;", "&copy;", "3\\)", "\\-", "\\+"]
@@ -190,8 +194,8 @@ class Gen:
                 out.append(a)
                 i += 1
             elif k < atoms + 0.07 and i + 2 <= n:
-                d = r.choice(["*", "_", "**", "__", "***"])
-                self.feats.add("emphasis" if len(d) == 1 else "strong")
+                d = r.choice(["*", "_", "**", "__", "***", "~~", "~"])
+                self.feats.add("strike" if d[0] == "~" else ("emphasis" if len(d) == 1 else "strong"))
                 m = r.randint(1, 3)
                 ws = [r.choice(WORDS) for _ in range(m)]
                 ws[0] = d + ws[0]
@@ -222,9 +226,10 @@ class Gen:
         r = self.r
         segs = []
         nseg = 1 if r.random() < 0.9 else r.randint(2, 3)
+        long_para = r.random() < 0.01  # a paragraph of more than 8 KB (a length at which another code path might take over)
         for _ in range(nseg):
             ws: list[str] = []
-            for _ in range(r.randint(1, maxsent)):
+            for _ in range(r.randint(1, maxsent) if not long_para else r.randint(120, 200)):
                 ws.extend(self.sentence())
             if len(segs) > 0 or nseg > 1:
                 # a segment before/after a hard break must not start with something block-like
@@ -236,6 +241,8 @@ class Gen:
             segs = [[("1999" if w == "1999\\." else w) for w in ws] for ws in segs]
         elif any(w == "1999\\." for ws in segs for w in ws):
             self.feats.add("escaped-number")
+        if long_para:
+            self.feats.add("long-paragraph")
         if nseg > 1:
             self.feats.add("hardbreak")
         self.feats.add("para")
